@@ -117,7 +117,7 @@ func (c *Cache) srcFS(p string) (srcFS filesystem.Filespace, src string) {
 func (c *Cache) Copy(src, dest string) error {
 	src = varutil.CleanPath(src)
 	dest = varutil.CleanPath(dest)
-	if dest == src || strings.HasPrefix(dest, src+"/") || src == "." {
+	if dest == src || strings.HasPrefix(dest, src+"/") || src == "." || src == "" {
 		return goaterr.Errorf("can not copy %s into itself (%s)", src, dest)
 	}
 	// the source is read through the cache itself: a directory can be partly
